@@ -33,8 +33,8 @@ ENTRIES = ["graphql_blocking", "process_executor", "graphql_async"]
 
 class NanWorld(RX.World):
     def leaf(self, base, key):
-        if base == "Float" and key % 3 == 0:
-            return [float("inf"), float("-inf"), float("nan")][key % 3 if key % 9 else 2]
+        if base == "Float" and key % 2 == 0:
+            return [float("inf"), float("-inf"), float("nan")][(key // 2) % 3]
         return RX.World.leaf(self, base, key)
 
 
@@ -209,7 +209,7 @@ def cases(draw):
     world = dict(base["world"], p_err=draw(st.sampled_from([0, 4, 9])))
     reqs = []
     for _ in range(draw(st.integers(3, 6))):
-        kind = draw(st.sampled_from(["valid", "valid", "truncate", "truncate", "token-mutation", "ast-mutation", "operation", "variables", "nan",
+        kind = draw(st.sampled_from(["valid", "valid", "truncate", "truncate", "token-mutation", "ast-mutation", "operation", "variables", "nan", "nan",
                                      "respace", "respace-truncate"]))
         r = {"text": req0["text"], "variables": req0["variables"], "operation_name": req0["operation_name"], "world": world, "kind": kind}
         if kind in ("respace", "respace-truncate"):
@@ -234,6 +234,16 @@ def cases(draw):
                 r["variables"].pop(sorted(r["variables"])[0])
         elif kind == "nan":
             r["nan"] = True
+            # prefer a request that certainly reaches a Float leaf: a root field (or one level below) of Float type
+            def no_req(f):
+                return all(not a["type"].endswith("!") or "default" in a for a in f.get("args") or [])
+            root = eff[req0.get("kind") or "query"] if req0.get("kind") in ("query", "mutation") else eff["query"]
+            direct = ["{ %s }" % f["name"] for f in eff.fields(root) if GS.named(GS.parse_t(f["type"])) == "Float" and no_req(f)]
+            nested = ["{ %s { %s } }" % (f["name"], g["name"]) for f in eff.fields(root) if no_req(f) and
+                      eff["types"].get(GS.named(GS.parse_t(f["type"])), {}).get("kind") == "object"
+                      for g in eff.fields(GS.named(GS.parse_t(f["type"]))) if GS.named(GS.parse_t(g["type"])) == "Float" and no_req(g)]
+            if (direct or nested) and root == eff["query"] and draw(st.booleans()):
+                r["text"], r["variables"], r["operation_name"] = draw(st.sampled_from(direct + nested)), {}, None
         r["entry"] = draw(st.sampled_from(ENTRIES[:2] * 4 + ENTRIES[2:]))
         reqs.append(r)
     return {"spec": spec, "mode": mode, "requests": reqs}
